@@ -173,6 +173,72 @@ def explorer_sanity():
     return problems
 
 
+def dfa_corpus():
+    """float()/int() grammar DFAs and str helpers of hv.bstr vs CPython."""
+    import math
+    from . import symx, bstr, terms as tm
+    corpus = ['', ' ', '0', '7', '-3', '+12', ' 42 ', '1_0', '1__0', '_1', '1_', '1.5', '.5', '5.', '.', '-.5e3', '1e5', '1e', '1e_5', '1e5_0', 'e5', '1_.5', '1._5',
+              '1_0.2_5', 'inf', '+inf', '-Inf', 'infinity', 'INFINITY', 'infinit', 'in', 'nan', 'NaN', '-nan', 'nan ', ' nan', 'na', 'nane', '1e999', '9e308', '1e308', '1.8e308',
+              '17976931e301', '1 2', '--1', '+-1', '1-', '0x10', '1,5', '\x1c3\x1f', '\t-7\n', 'abc', 'true', '1e-999', '00012', '-0', '-0.0', '12345678', '1.0e+2']
+    bad = []
+    ex = symx.Explorer()
+
+    def run1(fn):
+        out = {}
+
+        def body():
+            out['r'] = fn()
+        list(ex.explore(body))
+        return out.get('r')
+    for txt in corpus:
+        txt = txt.encode().decode('unicode_escape')
+        s = bstr.BStr.of(txt, 12)
+        # float
+        try:
+            want = float(txt)
+            wkind = 'nan' if math.isnan(want) else ('inf' if math.isinf(want) else 'finite')
+        except ValueError:
+            wkind = 'invalid'
+
+        def f():
+            try:
+                r = bstr.parse_float(s)
+            except ValueError:
+                return 'invalid'
+            fin = r.finite.val if r.finite.is_const() else None
+            nan = r.isnan.val if r.isnan.is_const() else None
+            return 'finite' if fin else ('nan' if nan else 'inf')
+        got = run1(f)
+        if got != wkind:
+            bad.append(('float', txt, wkind, got))
+        # int
+        try:
+            wi = int(txt)
+        except ValueError:
+            wi = 'invalid'
+
+        def g():
+            try:
+                r = bstr.parse_int(s)
+            except ValueError:
+                return 'invalid'
+            return r if isinstance(r, int) else (r.term.val if r.term.is_const() else 'sym')
+        gi = run1(g)
+        if gi != wi:
+            bad.append(('int', txt, wi, gi))
+        # strip / lower / replace
+        def h():
+            a = s.strip().concrete()
+            b = s.lower().concrete()
+            c = s.replace('-', '').concrete()
+            return (a, b, c)
+        gs = run1(h)
+        ws = (txt.strip(), txt.lower(), txt.replace('-', ''))
+        if gs != ws:
+            bad.append(('str', txt, ws, gs))
+    return bad
+
+
 def main():
     t0 = time.time()
     fail = False
@@ -194,6 +260,12 @@ def main():
     if bad:
         fail = True
         for b in bad[:20]:
+            print('  ', b)
+    bad2 = dfa_corpus()
+    print('selftest: string/DFA corpus mismatches: %d' % len(bad2))
+    if bad2:
+        fail = True
+        for b in bad2[:20]:
             print('  ', b)
     probs = explorer_sanity()
     print('selftest: explorer sanity problems: %d' % len(probs))
